@@ -122,6 +122,9 @@ pub mod path {
         #[verifier::external_body] pub fn to_path_buf(&self) -> (r: PathBuf) ensures r@ == self@ { unimplemented!() }
     }
     impl Clone for PathBuf { #[verifier::external_body] fn clone(&self) -> (r: PathBuf) ensures r@ == self@ { unimplemented!() } }
+    // a path used as a map key is keyed by its text
+    impl KeyV for PathBuf { type KV = Seq<char>; open spec fn kv(&self) -> Seq<char> { self@ } }
+    impl KeyV for Path { type KV = Seq<char>; open spec fn kv(&self) -> Seq<char> { self@ } }
     impl std::ops::Deref for PathBuf { type Target = Path;
         #[verifier::external_body] fn deref(&self) -> (r: &Path) ensures r@ == self@ { unimplemented!() } }
 }
@@ -587,6 +590,11 @@ pub mod zstdw {
         #[verifier::external_body] pub fn write_all(&mut self, data: &Vec<u8>) -> (r: Result<(), std::io::Error>)
             ensures final(self).bw == old(self).bw, final(self).finished == old(self).finished,
                 r is Ok ==> final(self).input == old(self).input + data@,
+        { unimplemented!() }
+        // std::io::Write::write: takes SOME prefix of the data (possibly all, possibly less) and says how much
+        #[verifier::external_body] pub fn write(&mut self, data: &Vec<u8>) -> (r: Result<usize, std::io::Error>)
+            ensures final(self).bw == old(self).bw, final(self).finished == old(self).finished,
+                r matches Ok(n) ==> n <= data@.len() && final(self).input == old(self).input + data@.take(n as int),
         { unimplemented!() }
         // do_finish(): ends the stream - the archive at the encoder's path now decodes to everything written so far (w.archives);
         // ASSUMED (zstd crate): finishing an already finished encoder does nothing
